@@ -334,6 +334,22 @@ func diagnose(ops []lin.Op) string {
 		if !lv.Snapshot() {
 			continue
 		}
+		// a read that fails although the key had a value from the set-up on and nobody deletes it
+		delKey := map[string]bool{}
+		initKey := map[string]bool{}
+		for _, o := range ops {
+			if o.Kind == lin.Delete {
+				delKey[o.Key] = true
+			}
+			if o.Kind == lin.Set && o.Thread == -1 && o.Actor == model.Auto {
+				initKey[o.Key] = true
+			}
+		}
+		for _, o := range ops {
+			if o.Actor == slot && o.Kind == lin.Get && o.ObsErr == model.ErrNotFound && !written[slot][o.Key] && initKey[o.Key] && !delKey[o.Key] {
+				return "snapshot-read-lost-version"
+			}
+		}
 		first := map[string]string{}
 		fromTx := map[int]map[string]bool{} // other writer slot -> keys seen new
 		for _, o := range ops {
@@ -415,10 +431,85 @@ func kindOf(v string) string {
 	return ""
 }
 
+// witness names structural conditions of a violating execution that identify known defects
+// independently of where the deviations happened.
+func witness(kind string, steps []conc.Step) []string {
+	var out []string
+	// w:gc-horizon-during-begin — a GC pass read the transaction registry (or drew its fall-back horizon)
+	// while a Begin had drawn its sequence but had not finished registering (D3b/c).
+	inflight := map[int]int{} // thread -> 1 drawn, 2 registering (next step ends it)
+	hit := false
+	var drawOrder, regOrder []int
+	gcOpen := map[int]int{} // GC thread -> 1 after Oldest, 2 after its fall-back draw (closes at its next step)
+	hit2 := false
+	for _, st := range steps {
+		if g := gcOpen[st.Thread]; g != 0 {
+			if g == 1 && strings.HasPrefix(st.Site, "internal/model/sequence.Next<internal/usecase/cleaner.(*UseCase).DeleteOld") {
+				gcOpen[st.Thread] = 2
+			} else if !strings.Contains(st.Site, "internal/repository/transaction.(*Repo).Oldest") {
+				delete(gcOpen, st.Thread)
+			}
+		}
+		if strings.Contains(st.Site, "internal/repository/transaction.(*Repo).Oldest") {
+			gcOpen[st.Thread] = 1
+		}
+		if st.Op == "atomic" && strings.HasPrefix(st.Site, "internal/model/sequence.Next<internal/usecase/transaction.(*UseCase).Begin") {
+			for g, state := range gcOpen {
+				if g != st.Thread && state == 1 {
+					hit2 = true
+				}
+			}
+		}
+		if inflight[st.Thread] == 2 {
+			delete(inflight, st.Thread)
+			regOrder = append(regOrder, st.Thread)
+		}
+		switch {
+		case st.Op == "atomic" && strings.HasPrefix(st.Site, "internal/model/sequence.Next<internal/usecase/transaction.(*UseCase).Begin"):
+			inflight[st.Thread] = 1
+			drawOrder = append(drawOrder, st.Thread)
+		case st.Op == "lock" && strings.Contains(st.Site, "omap.(*OMap[...]).Store<internal/repository/transaction.(*Repo).Store") && inflight[st.Thread] == 1:
+			inflight[st.Thread] = 2
+		case strings.Contains(st.Site, "internal/repository/transaction.(*Repo).Oldest") ||
+			strings.HasPrefix(st.Site, "internal/model/sequence.Next<internal/usecase/cleaner.(*UseCase).DeleteOld"):
+			for th := range inflight {
+				if th != st.Thread {
+					hit = true
+				}
+			}
+		}
+	}
+	if hit {
+		out = append(out, "w:gc-horizon-during-begin")
+	}
+	// w:begin-during-gc-horizon — a Begin drew its sequence after a GC pass had found the registry empty
+	// but before that pass drew its fall-back horizon (D3d).
+	if hit2 {
+		out = append(out, "w:begin-during-gc-horizon")
+	}
+	// w:begins-registered-out-of-sequence-order — two Begins registered in the opposite order of their
+	// sequence draws, so the registry's first entry is not the oldest snapshot (D3c).
+	pos := map[int]int{}
+	for i, th := range regOrder {
+		pos[th] = i + 1
+	}
+	for i := 0; i < len(drawOrder); i++ {
+		for j := i + 1; j < len(drawOrder); j++ {
+			a, b := pos[drawOrder[i]], pos[drawOrder[j]]
+			if a != 0 && b != 0 && b < a {
+				out = append(out, "w:begins-registered-out-of-sequence-order")
+				return out
+			}
+		}
+	}
+	return out
+}
+
 func init() {
 	conc.Register("db", func(p string) *conc.Scenario {
 		pr := parse(p)
 		return &conc.Scenario{
+			Witness: witness,
 			Options: func(o *vrt.Options) { o.LongTimer = dbh.GCPeriod / 2 },
 			Body:    pr.body,
 			Kind: func(v string) string {
